@@ -535,7 +535,13 @@ bool aiounicast_nonblock::Send
 	for (size_t mm = 0; mm < m.size(); mm++)
 	{
 		if (!Send(m[mm], i_in, timeout))
+		{
+			// a part of the array is on the wire: the receiver would complete it
+			// with elements of the next array, refuse further output instead
+			if (mm > 0)
+				fd_out.erase(i_in);
 			return false;
+		}
 	}
 	return true;
 }
